@@ -64,6 +64,30 @@ let mediatype_line h =
   let ((mt, hasmap), params) = DispatchModel.mediatype (hexd h) in
   Printf.sprintf "mt=%s hasmap=%s params=%s" (hexe mt) (if hasmap then "1" else "0") (canon_params params)
 
+(* ---- Stream ---- *)
+let parse_script s =
+  if s = "" then [] else
+  Stdlib.List.map (fun t ->
+    if t.[0] = 'C' then StreamModel.Chunk (hexd (Stdlib.String.sub t 1 (sl t - 1)))
+    else StreamModel.Fail (nat_of_int (int_of_string (Stdlib.String.sub t 1 (sl t - 1))))) (split ',' s)
+let stream_case entry probe writes ending script wf =
+  let ws = if writes = "" then [] else Stdlib.List.map hexd (split ',' writes) in
+  let fin = if ending = "EOF" then StreamModel.EndEOF
+            else if Stdlib.String.length ending > 3 && Stdlib.String.sub ending 0 3 = "LEX" then StreamModel.EndLexErr (nat_of_int 2)
+            else StreamModel.EndEarly (nat_of_int 2) in
+  let rn = { StreamModel.writes = ws; fin = fin } in
+  let sk = { StreamModel.final_probe = (probe = "1"); lexer_err_returned = true } in
+  let f _ = rn in
+  let ore e = { StreamModel.writes = []; fin = StreamModel.EndLexErr e } in
+  let wfo = if wf = "0" then None else Some (nat_of_int (int_of_string wf)) in
+  let sc = parse_script script in
+  let (r, out) =
+    match entry with
+    | "minify" -> StreamModel.entry_minify sk f ore sc wfo
+    | "reader" -> StreamModel.entry_reader sk f ore sc
+    | _ -> StreamModel.entry_minify sk f ore sc wfo in
+  (match r with StreamModel.ROk -> "ok" | StreamModel.RErr e -> "E" ^ string_of_int (int_of_nat e)) ^ " " ^ hexe out
+
 (* ---- DataUri ---- *)
 let b2s b = if b then "1" else "0"
 
@@ -76,4 +100,5 @@ let register (reg : string -> (string list -> string) -> unit) =
   reg "b64" (function [d] -> hexe (DataUriModel.b64_encode (hexd d)) | _ -> "BADARGS");
   reg "datauri" (function [o; m; d] -> hexe (DataUriModel.datauri_encode (hexd o) (hexd m) (hexd d)) | _ -> "BADARGS");
   reg "mediatype_min" (function [m] -> hexe (DataUriModel.mediatype_min (hexd m)) | _ -> "BADARGS");
+  reg "stream" (function [e; p; w; en; sc; wf] -> stream_case e p w en sc wf | _ -> "BADARGS");
   reg "json_tree" (function [t] -> show_events (JsonSpec.events_of JsonModel.SValue (parse_tree t)) | _ -> "BADARGS")
